@@ -1,23 +1,95 @@
 package c01
 
 import (
+	"math"
+	"math/big"
 	"os"
 	"testing"
 	"time"
 
+	"example.com/scion-time/core/sync"
+
 	"verif/harness/internal/vio"
 )
+
+// statedReal: the statement's list of settings that void the bound, on the
+// real configuration, over the integers (math/big: no machine word involved).
+func statedReal(cfg sync.Config) bool {
+	two := big.NewInt(2)
+	dt := new(big.Int).Mul(two, big.NewInt(int64(cfg.SyncTimeout)))
+	return cfg.ReferenceClockImpact <= 1 || cfg.PeerClockImpact <= 1 ||
+		cfg.PeerClockImpact-cfg.ReferenceClockImpact <= 1 ||
+		cfg.SyncInterval <= 0 || dt.Cmp(big.NewInt(int64(cfg.SyncInterval))) > 0
+}
 
 // bootCase: does Run refuse the configuration? (one all-failing round if not)
 func bootCase(t *testing.T, out *vio.Out, ci int, c tcase, ei int, tau time.Duration) {
 	e := embs[ei]
-	res := runOnce(t, realCfg(c.Cfg, e, tau), e.a*c.Cfg.Drift, tau, 1,
+	cfg := realCfg(c.Cfg, e, tau)
+	res := runOnce(t, cfg, e.a*c.Cfg.Drift, tau, 1,
 		errClocks(c.Cfg.Nref), errClocks(c.Cfg.Npeer), nil, nil)
 	if res.panicked && res.rec.touched {
 		t.Fatalf("case %d: sync.Run panicked inside the loop: %s", ci, res.msg)
 	}
-	out.Emit(rec{K: "boot", Case: ci, Emb: ei, Tau: int64(tau), Cfg: c.Cfg, Refused: res.panicked,
-		RawOK: true, Exact: true})
+	sr := statedReal(cfg)
+	if sr != c.Stated {
+		t.Fatalf("case %d: embedding does not preserve the statement's classification: %+v", ci, cfg)
+	}
+	out.Emit(rec{K: "boot", Case: ci, Emb: ei, Tau: int64(tau), Unit: tau.String(), Cfg: c.Cfg, Refused: res.panicked,
+		RawOK: !sr || res.panicked, Exact: true})
+}
+
+// Word-range start-up cases (kind "bootw"): the three Durations of the
+// configuration range over the whole model word -128 .. 127. Time units:
+//   2^56 ns  - the word maps onto int64 exactly (-128 -> MinInt64, 64 -> 2^62),
+//   2^56 ns with 127 -> MaxInt64 (only for cases that contain a 127),
+//   1 ns     - the same numbers as ordinary small durations.
+// The clock's drift is per time unit, so Drift(SyncInterval) stays small.
+const wordUnit = time.Duration(1) << 56
+
+type wordEmb struct {
+	unit time.Duration
+	ext  bool
+	name string
+	emb  int // index of the corresponding value embedding (for the record)
+}
+
+var wordEmbs = []wordEmb{{wordUnit, false, "2^56ns", 4}, {wordUnit, true, "2^56ns,127=MaxInt64", 5}, {time.Nanosecond, false, "1ns", 0}}
+
+func (w wordEmb) dur(v int64) time.Duration {
+	if w.ext && v == wordMax {
+		return time.Duration(math.MaxInt64)
+	}
+	return time.Duration(v) * w.unit // -128 * 2^56 = MinInt64 exactly
+}
+
+func hasWordMaxCfg(c mcfg) bool {
+	return c.Cutoff == wordMax || c.Interval == wordMax || c.Timeout == wordMax
+}
+
+// bootWordCase: refused (Run panics before the loop is reached) or accepted
+// (Run enters the loop: one all-failing round up to the first clk.Sleep).
+func bootWordCase(t *testing.T, out *vio.Out, ci int, c tcase, w wordEmb) {
+	cfg := sync.Config{
+		ReferenceClockImpact: float64(c.Cfg.Ri4) / 4,
+		PeerClockImpact:      float64(c.Cfg.Pi4) / 4,
+		PeerClockCutoff:      w.dur(c.Cfg.Cutoff),
+		SyncTimeout:          w.dur(c.Cfg.Timeout),
+		SyncInterval:         w.dur(c.Cfg.Interval),
+	}
+	res := runOnce(t, cfg, c.Cfg.Drift, w.unit, 1, errClocks(c.Cfg.Nref), errClocks(c.Cfg.Npeer), nil, nil)
+	if res.panicked && res.rec.touched {
+		t.Fatalf("case %d: sync.Run panicked inside the loop: %s", ci, res.msg)
+	}
+	if !res.panicked && !res.rec.touched {
+		t.Fatalf("case %d: sync.Run neither panicked nor reached the loop", ci)
+	}
+	sr := statedReal(cfg)
+	if sr != c.Stated {
+		t.Fatalf("case %d: embedding %s does not preserve the statement's classification: %+v", ci, w.name, cfg)
+	}
+	out.Emit(rec{K: "boot", Case: ci, Emb: w.emb, Tau: 0, Unit: w.name, Word: true, Cfg: c.Cfg, Refused: res.panicked,
+		RawOK: !sr || res.panicked, Exact: true})
 }
 
 // runCase replays one behaviour; returns (records, inexact records).
@@ -29,7 +101,7 @@ func runCase(t *testing.T, out *vio.Out, ci int, c tcase, ei int) (int, int) {
 	peers := scripts(c.Cfg.Npeer, c.Rounds, true, e, cfg.SyncTimeout, tau)
 	driftPer := e.a * c.Cfg.Drift
 	d := driftPer * c.Cfg.Interval // clk.Drift(cfg.SyncInterval)
-	boot := rec{K: "boot", Case: ci, Emb: ei, Tau: int64(tau), Cfg: c.Cfg, RawOK: true, Exact: true}
+	boot := rec{K: "boot", Case: ci, Emb: ei, Tau: int64(tau), Unit: tau.String(), Cfg: c.Cfg, RawOK: true, Exact: true}
 	el := make([]elapse, len(c.Rounds)) // el[k]: the Sleep call between round k and round k+1
 	for i, m := range c.Rounds {
 		el[i] = elapse{m.Slp, m.Stp}
